@@ -119,6 +119,13 @@ var xlDomWhitelist = []xlFunc{
 	{Pkg: "diff", Name: "diffList", Lean: "diffList", Acc: "res"},
 	{Pkg: "diff", Name: "handleExisting", Lean: "handleExisting", Acc: "res", RecFuel: "2 * GoDom.sizeN $1 + 1", RecGroup: "diff"},
 	{Pkg: "diff", Name: "diff", Lean: "diff", Acc: "res", RecFuel: "2 * GoDom.sizeC $1 + 2", RecGroup: "diff"},
+	// dom/list.go: the ListBuilder methods behind the DomPrelude primitives GoDom.append / GoDom.set (they mutate their
+	// receiver and return it: Acc "$recv").  LAST in the list, so that the code above keeps calling the primitives; the
+	// theorems `listBuilder*_generated_eq_model` (C03) prove the primitives equal to these translations.
+	{Pkg: "dom", Recv: "listBuilderImpl", Name: "Append", Lean: "listBuilderAppend", Acc: "$recv"},
+	{Pkg: "dom", Recv: "listBuilderImpl", Name: "Clear", Lean: "listBuilderClear", Acc: "$recv"},
+	{Pkg: "dom", Recv: "listBuilderImpl", Name: "MustSet", Lean: "listBuilderMustSet", Acc: "$recv"},
+	{Pkg: "dom", Recv: "listBuilderImpl", Name: "Set", Lean: "listBuilderSet", Acc: "$recv", Fuel: []string{"int($1)+2"}},
 }
 
 func genFuncsDom(repo string) (string, error) {
@@ -346,6 +353,9 @@ func (x *xl) exprTo(e ast.Expr, to types.Type, toOpt bool) ([]string, string, er
 }
 
 func (x *xl) varLeanType(v *types.Var) (string, error) {
+	if x.acc != nil && v == x.acc && x.recvAcc {
+		return x.w.leanType(v.Type())
+	}
 	if x.acc != nil && v == x.acc {
 		return x.w.leanType(v.Type().Underlying().(*types.Pointer).Elem())
 	}
@@ -726,6 +736,15 @@ func (x *xl) domSimple(s ast.Stmt) ([]string, bool, error) {
 				// the threaded variable: the caller's own accumulator, or `&local`
 				target := ""
 				sig := fn.Type().(*types.Signature)
+				if cf.Acc == "$recv" {
+					if sel, ok := c.Fun.(*ast.SelectorExpr); ok {
+						n, _, err := x.localBuilder(sel.X, fn.Name())
+						if err != nil {
+							return nil, true, err
+						}
+						target = n
+					}
+				}
 				for i := 0; i < sig.Params().Len() && i < len(c.Args); i++ {
 					if sig.Params().At(i).Name() == cf.Acc {
 						if n, ok := x.accArg(c.Args[i]); ok {
@@ -736,7 +755,9 @@ func (x *xl) domSimple(s ast.Stmt) ([]string, bool, error) {
 				if target == "" {
 					return nil, true, x.errf(c, "call of %s: its accumulator argument is neither the caller's accumulator nor the address of a local variable", fn.Name())
 				}
+				x.inStmtCall = true
 				b, v, err := x.callWhitelisted(c, fn)
+				x.inStmtCall = false
 				if err != nil {
 					return nil, true, err
 				}
@@ -826,6 +847,25 @@ func (x *xl) domSimple(s ast.Stmt) ([]string, bool, error) {
 		switch l := y.Lhs[0].(type) {
 		case *ast.IndexExpr:
 			// m[k] = v on a local Go map
+			if fs, ok := l.X.(*ast.SelectorExpr); ok && fs.Sel.Name == "items" && domKind(x.typeOf(fs.X)) == "list" {
+				// l.items[i] = v on the receiver being threaded / a local builder: panics when out of range
+				n, _, err := x.localBuilder(fs.X, "element assignment")
+				if err != nil {
+					return nil, true, err
+				}
+				if bt, ok := x.typeOf(l.Index).Underlying().(*types.Basic); !ok || bt.Kind() != types.Uint {
+					return nil, true, x.errf(l, "items index that is not a uint")
+				}
+				bi, i, err := x.expr(l.Index)
+				if err != nil {
+					return nil, true, err
+				}
+				bv, v, err := x.exprTo(y.Rhs[0], x.nodeType(), false)
+				if err != nil {
+					return nil, true, err
+				}
+				return append(append(bi, bv...), fmt.Sprintf("let %s ← GoDom.setItemAt %s %s %s", n, n, i, v)), true, nil
+			}
 			if _, isMap := x.typeOf(l.X).Underlying().(*types.Map); isMap && domKind(x.typeOf(l.X)) == "plainmap" {
 				n, _, err := x.localBuilder(l.X, "map assignment")
 				if err != nil {
@@ -1147,7 +1187,13 @@ func (w *xlWorld) sigLeanTypes(f *xlFunc, sig *types.Signature) (params []string
 		}
 		rts = append(rts, t)
 	}
-	if f.Acc != "" {
+	if f.Acc == "$recv" && sig.Recv() != nil {
+		t, err := w.leanType(sig.Recv().Type())
+		if err != nil {
+			return nil, "", err
+		}
+		rts = []string{t}
+	} else if f.Acc != "" {
 		for i := 0; i < sig.Params().Len(); i++ {
 			if v := sig.Params().At(i); v.Name() == f.Acc {
 				t, _ := w.leanType(v.Type().Underlying().(*types.Pointer).Elem())
@@ -1238,6 +1284,10 @@ func (x *xl) callWhitelisted(c *ast.CallExpr, fn *types.Func) ([]string, string,
 	} else {
 		return nil, "", x.errf(c, "call of %s (neither whitelisted nor a supported primitive)", funcKey(fn))
 	}
+	if cf.Acc == "$recv" && !x.inStmtCall {
+		return nil, "", x.errf(c, "call of %s (it mutates its receiver) whose result is used: only the statement form rebinds the receiver", fn.Name())
+	}
+	x.inStmtCall = false
 	var bs, args []string
 	// receiver
 	if sel, ok := c.Fun.(*ast.SelectorExpr); ok {
